@@ -179,4 +179,22 @@ theorem tie_skel_Stream_SetDeadline : Gen.Skel.Stream_SetDeadline = [
   "return nil",
   "}"] := by rfl
 
+/-! the handshake's only read primitive: a read of 0 bytes (the peer closed, or initProtocol shut the descriptor down on
+    time-out) ends it at ANY point of a message -/
+theorem tie_skel_c11_blockReadFull : Gen.Skel.blockReadFull = [
+  "func blockReadFull(connFd int, data []byte) error {",
+  "readSize := 0",
+  "for readSize < len(data) {",
+  "n, err := syscall.Read(connFd, data[readSize:])",
+  "if err != nil {",
+  "return fmt.Errorf(\"ReadFull failed, had readSize:%d reason:%s\", readSize, err.Error())",
+  "}",
+  "readSize += n",
+  "if n == 0 {",
+  "return io.EOF",
+  "}",
+  "}",
+  "return nil",
+  "}"] := by rfl
+
 end Tie.C11
